@@ -58,14 +58,17 @@ impl<'a> Gen<'a> {
                 let n = self.rng.below(4);
                 let mut m = SlotMap::new();
                 let mut vals: Vec<u32> = Vec::new();
+                // one invocation in eight may pass the same slot to two parameters (`c[x, x]`): not something the e-graph
+                // builds itself, but a slot assignment with a repeated name like any other for the shape computation
+                let repeats = self.rng.chance(1, 8);
                 for i in 0..n {
                     let mut v = self.free_slot(scope);
                     let mut tries = 0;
-                    while vals.contains(&v) && tries < 10 {
+                    while !repeats && vals.contains(&v) && tries < 10 {
                         v = self.free_slot(scope);
                         tries += 1;
                     }
-                    if vals.contains(&v) {
+                    if !repeats && vals.contains(&v) {
                         continue;
                     }
                     vals.push(v);
